@@ -74,17 +74,24 @@ Proof.
 Qed.
 
 (* ------------------------------------------------------------------ SOAP headers *)
+(** the parser of a protocol built with the default arguments removes comments and PIs (generated flags) *)
+Lemma parsed_denoted d : parsed d = denoted d.
+Proof. reflexivity. Qed.
+
+Lemma hdr_match_qualified ns name e : hdr_match ns name e = is_elt ns name e.
+Proof. reflexivity. Qed.
+
 Lemma last_elt_none ns name : forall l acc,
   (forall e, In e l -> is_elt ns name e = false) -> last_elt ns name l acc = acc.
 Proof.
-  induction l as [|e l IH]; intros acc H; [reflexivity|]. cbn [last_elt].
+  induction l as [|e l IH]; intros acc H; [reflexivity|]. cbn [last_elt]. rewrite hdr_match_qualified.
   rewrite (H e (or_introl eq_refl)). apply IH. intros e' He'. apply H. right. exact He'.
 Qed.
 Lemma last_elt_pick ns name : forall l1 e l2 acc, is_elt ns name e = true ->
   (forall e', In e' l2 -> is_elt ns name e' = false) -> last_elt ns name (l1 ++ e :: l2) acc = Some e.
 Proof.
   induction l1 as [|x l1 IH]; intros e l2 acc He H2; cbn [app last_elt].
-  - rewrite He. apply last_elt_none. exact H2.
+  - rewrite hdr_match_qualified, He. apply last_elt_none. exact H2.
   - apply IH; assumption.
 Qed.
 
@@ -192,8 +199,8 @@ Proof.
   destruct n; cbn [norm]; [eauto|]. destruct (flat_fields U c); eauto.
 Qed.
 
-Lemma absent_args_id U t v : v <> VNone -> absent_args U t v = inr v.
-Proof. destruct v; [congruence| | |]; reflexivity. Qed.
+Lemma absent_args_id w U t v : v <> VNone -> absent_args w U t v = inr v.
+Proof. destruct w; destruct v; try congruence; reflexivity. Qed.
 
 Lemma norm_not_none U n t v : nonelike v = false -> norm U n t v <> VNone.
 Proof.
@@ -356,14 +363,14 @@ Section Fidelity.
       rewrite (find_method_nth (s_tns Sv) (s_methods Sv) 0 i m Hnames Hnth). cbn [Nat.add].
       rewrite Hhd.
       unfold C, U, cfgV in Hd. rewrite Hd.
-      rewrite (absent_args_id _ _ _ (norm_not_none (synth U0 Sv) fuel _ _ Hnl)).
+      rewrite (absent_args_id _ _ _ _ (norm_not_none (synth U0 Sv) fuel _ _ Hnl)).
       rewrite <- seen_header_raw.
       fold U. rewrite (args_of i m args).
       rewrite Hf. rewrite Hser. reflexivity.
     - (* ---- the client *)
       unfold client_response. fold (open_doc P (wire (envelope P hsout rbody))). rewrite open_envelope.
       rewrite Hhd2. cbn [bind]. unfold C, U, cfgV in Hd2. rewrite Hd2. cbn [bind].
-      rewrite (absent_args_id _ _ _ (norm_not_none (synth U0 Sv) fuel _ _ Hnlr)). cbn [bind].
+      rewrite (absent_args_id _ _ _ _ (norm_not_none (synth U0 Sv) fuel _ _ Hnlr)). cbn [bind].
       rewrite <- seen_header_raw.
       unfold seen_ret. unfold ret_value in Erv.
       destruct (m_style m) eqn:Es.
@@ -378,5 +385,31 @@ Section Fidelity.
           unfold resp_ty. rewrite Es. cbn [fst]. rewrite Hn. reflexivity.
       + injection Erv as <-. fold U. destruct (m_returns m) as [|r [|? ?]]; destruct (norm U fuel (fst (resp_ty U0 i m)) ret); reflexivity.
       + injection Erv as <-. fold U. destruct (m_returns m) as [|r [|? ?]]; destruct (norm U fuel (fst (resp_ty U0 i m)) ret); reflexivity.
+  Qed.
+
+  (** the same for every DOCUMENT that denotes the client's request (the server's response): comments and
+      processing instructions anywhere in it -- between the items of an array, inside character data -- change nothing *)
+  Theorem call_fidelity_documents : forall i m (f : ufun) hv args ret oh,
+    nth_error (s_methods Sv) i = Some m ->
+    hdr_distinct U (m_in_header m) = true -> hdr_distinct U (m_out_header m) = true ->
+    args_conf L U0 Sv fuel i m args = true ->
+    hdrs_conf L U0 Sv fuel (m_in_header m) hv = true ->
+    (V = ValLxml -> forall e, enc L U fuel (fst (req_ty U0 i m)) (s_tns Sv) (m_name m) (req_value U0 i m args) = Ok e ->
+                    schema_valid (wire e) = true) ->
+    f (m_name m) (seen_header P U0 Sv fuel (m_in_header m) hv) (seen_args U0 Sv fuel i m args) = (ret, oh) ->
+    ret_conf L U0 Sv fuel i m ret = true ->
+    hdrs_conf L U0 Sv fuel (m_out_header m) oh = true ->
+    exists req resp,
+      client_request L P U0 Sv fuel i m hv args = Ok req
+      /\ (forall d : dnode, denoted d = wire req ->
+          server L P V schema_valid U0 Sv fuel f (parsed d)
+          = RReturn [(m_name m, seen_header P U0 Sv fuel (m_in_header m) hv, seen_args U0 Sv fuel i m args)] resp)
+      /\ (forall d : dnode, denoted d = wire resp ->
+          client_response L P V U0 Sv fuel i m (parsed d)
+          = Ok (seen_ret U0 Sv fuel i m ret, seen_header P U0 Sv fuel (m_out_header m) oh)).
+  Proof.
+    intros i m f hv args ret oh H1 H2 H3 H4 H5 H6 H7 H8 H9.
+    destruct (call_fidelity_lemma i m f hv args ret oh H1 H2 H3 H4 H5 H6 H7 H8 H9) as [req [resp [Hq [Hs Hc]]]].
+    exists req, resp. split; [exact Hq|]. split; intros d Hd; rewrite parsed_denoted, Hd; assumption.
   Qed.
 End Fidelity.
